@@ -31,7 +31,8 @@ def find_gauss(ctx, R):
         for ai, a in enumerate(t["args"]):
             r = v.root(a)
             pty = ctx.facts.ty(cb.local_ty(ai + 1)) or {}
-            if r.kind == "local" and r.base[1] == rd["local"] and not r.path and pty.get("k") == "ref" and pty.get("mut"):
+            pointee = (ctx.facts.ty(pty.get("t", "")) or {}) if pty.get("k") == "ref" else {}
+            if r.kind == "local" and not r.path and pty.get("k") == "ref" and pty.get("mut") and pointee.get("path") == rd["adt"]:
                 cands.append((bi, t, cb))
     if len(cands) != 1:
         raise RoleLost("gauss: the second callee of sample taking &mut reader (found %d)" % len(cands))
